@@ -101,6 +101,8 @@ def contexts():
         C.append(("ctrl-first", client, [["s", ctrl, "00", 0]], ctrl))
         C.append(("request-start", client, [], 0))
         C.append(("request-after-headers", client, [["s", 0, (resp if client else req).hex(), 0]], 0))
+        trl = hc.frame(1, pylsqpack.Encoder().encode(0, [(b"x-trailer", b"1")])[1])
+        C.append(("request-after-trailers", client, [["s", 0, ((resp if client else req) + hc.frame(0, b"ab") + trl).hex(), 0]], 0))
         push = hc.peer_uni(client, 1)
         C.append(("push-after-headers", client, [["s", push, (hc.H("0100") + resp).hex(), 0]], push))
     return C
